@@ -44,7 +44,7 @@ V6_NBR = ['2001:db8:ffff::2']
 EXTRA_PEERS = ['10.77.0.1', '2001:db8:ffff::77']
 COMMUNITIES = ['65000:1', '65000:1 65000:2', 'no-export', '64512:100 65000:2', '65000:1  65000:2']
 DIS_COMMUNITIES = ['65000:666', '65000:666 no-export']
-EXT_COMMUNITIES = ['target:65000:1', 'target:65000:1 origin:65000:2']
+EXT_COMMUNITIES = ['target:65000:1', 'target:65000:1 target:65001:2']
 LARGE_COMMUNITIES = ['65000:1:2', '65000:1:2 65000:3:4']
 AS_PATHS = ['65000', '65000 65001', '64512 64513 64514']
 U32 = 4294967295
@@ -497,6 +497,12 @@ def shrink_case(case: dict, bad: Any) -> dict:
 
     if cur['exit'] != ['interrupt'] and bad(with_(exit=['interrupt'])):
         cur['exit'] = ['interrupt']
+    # the two smallest scripts that write something: one success / one failure with rise = fall = 1
+    for first in ([0, 1], [0, 0]):
+        cand = with_(rise=1, fall=1, disable=False, inputs=[first])
+        if bad(cand):
+            cur = cand
+            break
     cur['inputs'] = ddmin(cur['inputs'], lambda ins: bool(ins) and bad(with_(inputs=ins)))
     for k, v in DEFAULTS.items():
         if k in ('ips', 'neighbors') or cur['opts'][k] == v:
@@ -579,7 +585,7 @@ def refused_cases() -> list[dict]:
 def run(ctx: Ctx) -> None:
     rng = ctx.rng
     quick = ctx.tier == 'quick'
-    ncases = 1500 if quick else 40000
+    ncases = 2500 if quick else 40000
     maxlen = 40 if quick else 120
     ctx.rule = (
         'a case = (argv of the helper, scripted check results and disable-file states per iteration, exit event); '
